@@ -5,8 +5,8 @@
    checks with [allowed] that every recorded transition of the real handlers is such a step. *)
 From Coq Require Import List Arith ZArith QArith Qabs Bool Permutation.
 From PyOMA.Base Require Import Argmin.
-From PyOMA.Model Require Import M_pick.
-From PyOMA.Proofs Require Import P_pick.
+From PyOMA.Model Require Import M_mpe M_pick M_pick_hist M_pick_mpe.
+From PyOMA.Proofs Require Import P_pick P_pick_hist P_pick_mpe.
 Import ListNotations.
 Open Scope Q_scope.
 
@@ -106,6 +106,83 @@ Proof. exact run_impl_steps. Qed.
 Theorem C16_impl_keeps_sorted : forall pick acts, sorted_f (sel (run_impl pick acts)).
 Proof. exact impl_keeps_sorted. Qed.
 
+(* ---- the dialog refines into the extraction of C11 (Model/M_mpe.v: mpe_explicit, the model of SSI_mpe / pLSCF_mpe with an
+   order LIST): for EVERY history of allowed steps on EVERY table, the two lists handed over, fed to that extraction with the
+   caller's rtol >= 0, return in the same positions - orders repeated or not, the same pole selected twice or not - the
+   whole pole of each selected pair: its own frequency, and the payload (damping, shape, covariances) of the SAME cell, which
+   is the first row of that order holding this frequency and the very cell a picking click of the history designated;
+   order_out is the list of the picked orders.  [Fn] row-major as in C11, [tbl] its columns as in the dialog. *)
+Theorem C16_handover_whole_pole : forall (P:Type) (Fn:tab) (Pay:list (list P)) (tbl:table) (rtol:Q) acts st,
+  0 <= rtol -> columns_of Fn tbl -> reduced_table tbl -> pay_covers Fn Pay ->
+  steps (pick_ssi tbl) init_state acts st ->
+  exists vals,
+    handover Fn Pay rtol (result st) = Ok (vals, OutList (map snd (sel st))) /\
+    Forall2 (own_pole Fn Pay tbl acts) vals (sel st).
+Proof. exact @handover_whole_pole. Qed.
+Theorem C16_handover_lists : forall (P:Type) (Fn:tab) (Pay:list (list P)) (tbl:table) (rtol:Q) acts st,
+  0 <= rtol -> columns_of Fn tbl -> reduced_table tbl -> pay_covers Fn Pay ->
+  steps (pick_ssi tbl) init_state acts st ->
+  exists vals, handover Fn Pay rtol (result st) = Ok (vals, OutList (snd (result st))) /\
+               map fst vals = fst (result st) /\ length vals = length (sel st).
+Proof. exact @handover_lists. Qed.
+(* the whole of mpe_from_plot (dialog resolved as in the present code, then extraction) on a rectangular table *)
+Theorem C16_mpe_from_plot_whole_pole : forall (P:Type) n m (Fn:tab) (Pay:list (list P)) (rtol:Q) acts,
+  0 <= rtol -> rect n m Fn -> pay_covers Fn Pay ->
+  (forall tbl, cols_of m Fn = Some tbl -> reduced_table tbl) ->
+  exists tbl vals,
+    cols_of m Fn = Some tbl /\
+    mpe_from_plot_impl m Fn Pay rtol acts = Ok (vals, OutList (map snd (sel (run_impl (pick_ssi tbl) acts)))) /\
+    Forall2 (own_pole Fn Pay tbl acts) vals (sel (run_impl (pick_ssi tbl) acts)).
+Proof. exact @mpe_from_plot_impl_whole_pole. Qed.
+(* the side conditions above hold for every rectangular table with payload tables of the same shape *)
+Theorem C16_cols_of_columns : forall m Fn tbl, cols_of m Fn = Some tbl -> columns_of Fn tbl /\ length tbl = m.
+Proof. exact cols_of_columns. Qed.
+Theorem C16_cols_of_rect : forall n m Fn, rect n m Fn -> exists tbl, cols_of m Fn = Some tbl.
+Proof. exact cols_of_rect. Qed.
+Theorem C16_pay_covers_rect : forall (P:Type) n m (Fn:tab) (Pay:list (list P)), rect n m Fn -> rect n m Pay -> pay_covers Fn Pay.
+Proof. exact @pay_covers_rect. Qed.
+
+(* ---- events that neither pick nor deselect nor change the modifier (other keys, pointer motion, scrolling, button
+   releases, menu entries = KeyOther; clicks with another button, clicks without the modifier, clicks outside the axes other
+   than a deselect-one) are irrelevant, for EVERY history: dropped ([strip]) or interleaved anywhere, (a) the present code's
+   resolution ends in literally the same state, (b) every history of allowed steps has a counterpart on the stripped history
+   with the same modifier and the same multiset of pairs, and (c) conversely *)
+Theorem C16_inert_events_irrelevant : forall pick acts,
+  run_impl pick (strip false acts) = run_impl pick acts /\
+  (forall st, steps pick init_state acts st ->
+     exists t, steps pick init_state (strip false acts) t /\ same_selection t st) /\
+  (forall st, steps pick init_state (strip false acts) st -> steps pick init_state acts st).
+Proof. exact inert_events_irrelevant. Qed.
+Theorem C16_same_acting_same_selection : forall pick acts acts', strip false acts = strip false acts' ->
+  run_impl pick acts = run_impl pick acts' /\
+  result (run_impl pick acts) = result (run_impl pick acts') /\
+  (forall st, steps pick init_state acts st -> exists t, steps pick init_state acts' t /\ same_selection t st).
+Proof. exact same_acting_same_selection. Qed.
+Theorem C16_strip_normal_form : forall l sh, strip sh (strip sh l) = strip sh l.
+Proof. exact strip_idem. Qed.
+
+(* ---- deselect-nearest in the present code, tie rule explicit: the entry removed is the one at the FIRST position of the
+   selection whose distance to the click is minimal (strictly closer than every entry before it), every other entry
+   stays in place; and since the selection is kept sorted by frequency, among several entries at minimal distance the one
+   of LOWEST frequency goes *)
+Theorem C16_deselect_nearest_first_minimal : forall pick st x y, shift st = true -> sel st <> [] ->
+  exists i e, nth_error (sel st) i = Some e /\
+    impl_step pick st (Click BMiddle x y) = mkst true (firstn i (sel st) ++ skipn (S i) (sel st)) /\
+    sel st = firstn i (sel st) ++ e :: skipn (S i) (sel st) /\
+    (forall e2, In e2 (sel st) -> absdist x (fst e) <= absdist x (fst e2)) /\
+    (forall j e2, (j < i)%nat -> nth_error (sel st) j = Some e2 -> absdist x (fst e) < absdist x (fst e2)).
+Proof. exact impl_deselect_nearest. Qed.
+Theorem C16_deselect_nearest_tie_rule : forall pick acts x y,
+  let st := run_impl pick acts in
+  shift st = true -> sel st <> [] ->
+  exists i e, nth_error (sel st) i = Some e /\
+    sel (impl_step pick st (Click BMiddle x y)) = firstn i (sel st) ++ skipn (S i) (sel st) /\
+    sel st = firstn i (sel st) ++ e :: skipn (S i) (sel st) /\
+    (forall e2, In e2 (sel st) -> absdist x (fst e) <= absdist x (fst e2)) /\
+    (forall e2, In e2 (sel st) -> absdist x (fst e2) == absdist x (fst e) -> fst e <= fst e2) /\
+    (forall j e2, (j < i)%nat -> nth_error (sel st) j = Some e2 -> absdist x (fst e) < absdist x (fst e2)).
+Proof. exact impl_deselect_nearest_tie. Qed.
+
 Print Assumptions C16_checker_decides_spec.
 Print Assumptions C16_nearest_order.
 Print Assumptions C16_pick_designates.
@@ -122,6 +199,17 @@ Print Assumptions C16_pick_order_irrelevant.
 Print Assumptions C16_impl_choice_allowed.
 Print Assumptions C16_run_impl_steps.
 Print Assumptions C16_impl_keeps_sorted.
+Print Assumptions C16_handover_whole_pole.
+Print Assumptions C16_handover_lists.
+Print Assumptions C16_mpe_from_plot_whole_pole.
+Print Assumptions C16_cols_of_columns.
+Print Assumptions C16_cols_of_rect.
+Print Assumptions C16_pay_covers_rect.
+Print Assumptions C16_inert_events_irrelevant.
+Print Assumptions C16_same_acting_same_selection.
+Print Assumptions C16_strip_normal_form.
+Print Assumptions C16_deselect_nearest_first_minimal.
+Print Assumptions C16_deselect_nearest_tie_rule.
 
 (* non-vacuity.  Table of 3 orders x 3 rows with a NaN, column-major: order 0 = [3, nan, 12], order 1 = [10, 4, nan],
    order 2 = [nan, 5, 11].  The history of the repaired defect: modifier down, pick 10 Hz at order 1, then 5 Hz at
@@ -153,4 +241,41 @@ Proof.
   intros col r p Hin Hn. cbn in Hin.
   repeat (destruct Hin as [Hin|Hin]; [subst col; repeat (destruct r as [|r]; cbn in Hn; [inversion Hn; reflexivity || discriminate|]); destruct r; discriminate|]).
   destruct Hin.
+Qed.
+
+(* the same table row-major, as C11 reads it; payload = cell identifiers 3*row + order.  A history with interleaved
+   non-acting events, REPEATED orders (1, 2, 2, 1) and the same pole (5 Hz at order 2) selected twice *)
+Definition C16_Fn : tab :=
+  [[Some (3#1); Some (10#1); None]; [None; Some (4#1); Some (5#1)]; [Some (12#1); None; Some (11#1)]].
+Definition C16_hist2 : list action :=
+  [Click BLeft (3#1) 0; KeyOther; KeyDown; Click BLeft (39#4) (5#4); ClickOut BMiddle; Click BLeft (21#4) (7#4); KeyOther;
+   Click BOther (12#1) 0; Click BLeft (4#1) (3#4); Click BLeft (5#1) (2#1); KeyUp; Click BMiddle (5#1) 0].
+
+Example C16_example_handover :
+  cols_of 3 C16_Fn = Some C16_tbl /\
+  strip false C16_hist2 = [KeyDown; Click BLeft (39#4) (5#4); Click BLeft (21#4) (7#4); Click BLeft (4#1) (3#4); Click BLeft (5#1) (2#1); KeyUp] /\
+  result (run_impl (pick_ssi C16_tbl) C16_hist2) = ([4#1; 5#1; 5#1; 10#1], [1%nat; 2%nat; 2%nat; 1%nat]) /\
+  mpe_from_plot_impl 3 C16_Fn (id_tab 3 3) (1#100) C16_hist2
+    = Ok ([(4#1, 4%nat); (5#1, 5%nat); (5#1, 5%nat); (10#1, 1%nat)], OutList [1%nat; 2%nat; 2%nat; 1%nat]) /\
+  mpe_from_plot_impl 3 C16_Fn (id_tab 3 3) (1#100) (strip false C16_hist2) = mpe_from_plot_impl 3 C16_Fn (id_tab 3 3) (1#100) C16_hist2 /\
+  pick_ssi_cell C16_tbl (21#4) (7#4) = Some (1%nat, 2%nat, 5#1) /\
+  (* deselect-nearest on an exact tie: 4 Hz and 5 Hz (twice) selected, click at 4.5 Hz: the 4 Hz entry goes *)
+  sel (impl_step (pick_ssi C16_tbl) (mkst true [(4#1, 1%nat); (5#1, 2%nat); (5#1, 2%nat); (10#1, 1%nat)]) (Click BMiddle (9#2) 0))
+    = [(5#1, 2%nat); (5#1, 2%nat); (10#1, 1%nat)].
+Proof. vm_compute. repeat split; reflexivity. Qed.
+
+(* the hypotheses of C16_handover_whole_pole / C16_mpe_from_plot_whole_pole / C16_deselect_nearest_tie_rule hold here *)
+Example C16_example_handover_hypotheses :
+  0 <= 1#100 /\ rect 3 3 C16_Fn /\ rect 3 3 (id_tab 3 3) /\ columns_of C16_Fn C16_tbl /\ pay_covers C16_Fn (id_tab 3 3) /\
+  (forall tbl, cols_of 3 C16_Fn = Some tbl -> reduced_table tbl) /\
+  steps (pick_ssi C16_tbl) init_state C16_hist2 (run_impl (pick_ssi C16_tbl) C16_hist2) /\
+  (let st := run_impl (pick_ssi C16_tbl) [KeyDown; Click BLeft (4#1) (3#4); Click BLeft (5#1) (2#1)] in shift st = true /\ sel st <> []).
+Proof.
+  assert (HR : rect 3 3 C16_Fn) by (split; [reflexivity|repeat constructor]).
+  assert (HP : rect 3 3 (id_tab 3 3)) by (split; [reflexivity|repeat constructor]).
+  split; [discriminate|]. split; [exact HR|]. split; [exact HP|].
+  split; [apply (cols_of_columns 3 C16_Fn C16_tbl); reflexivity|].
+  split; [exact (pay_covers_rect 3 3 C16_Fn (id_tab 3 3) HR HP)|].
+  split; [|split; [apply run_impl_steps|split; [reflexivity|discriminate]]].
+  intros tbl H. vm_compute in H. inversion H. subst tbl. exact (proj1 (proj2 C16_example_hypotheses)).
 Qed.
